@@ -8,6 +8,7 @@
 
     - [c25_char_mism]: per code point, [char::is_whitespace] and [char::to_lowercase];
     - [c25_sig_mism]: per text, [QuerySignature::from_sql(text).hash()];
+    - [c25_nq_mism]: per text, the repaired (quote-aware) normaliser used by the finding classifier;
     - [c25_pool_mism]: per pooled query, the signature, the executor crate's extracted table set and the
       adapter extractor's table set (set comparison: the Rust results are HashSets);
     - [c25_trace_mism]: raw cache traces (get / insert with the observed victim / invalidate_table /
@@ -302,6 +303,11 @@ Definition c25_char_mism (tbl : list (Z * Z * bool * list Z)) : list Z :=
 (** ** signatures: (id, text, observed hash) *)
 Definition c25_sig_mism (cases : list (Z * list Z * Z)) : list Z :=
   flat_map (fun '(id, s, h) => if (signature s =? h) && in_scope s then [] else [id]) cases.
+
+(** ** the quote-aware normaliser (the repair specification) against the harness's Rust twin, which the
+    finding classifier uses for its repaired signatures: (id, text, normalize_q text) *)
+Definition c25_nq_mism (cases : list (Z * list Z * list Z)) : list Z :=
+  flat_map (fun '(id, s, n) => if zlist_eqb (normalize_q s) n then [] else [id]) cases.
 
 (** ** pooled queries *)
 Record pquery : Type := mkPQ {
